@@ -102,6 +102,18 @@ Theorem C07_strip_on_domain : forall wire o q u,
 Proof. exact target_on_domain. Qed.
 Print Assumptions C07_strip_on_domain.
 
+(* even inside the two regions the path the upstream is sent DECODES to the path the options
+   ask for (what is lost there is the client's choice of encoding, e.g. %2F vs /) *)
+Theorem C07_upstream_path_denotes : forall wire o q u,
+  all_lt_256 (rq_target q) = true -> all_lt_256 (ro_prepend o) = true ->
+  forward wire o q = Ok u ->
+  exists rp path,
+    unescape (raw_path_of (rq_target q)) = Ok path
+    /\ up_target u = rp ++ spec_query o (rq_target q)
+    /\ unescape rp = Ok (target_path path (ro_strip o) (ro_prepend o)).
+Proof. exact upstream_path_denotes. Qed.
+Print Assumptions C07_upstream_path_denotes.
+
 Theorem C07_strip_on_domain_nonvacuous :
   let o := mk_opts "/strip" "/pre" in let q := mk_req "/strip/x%20y/z?q=1" in
   all_lt_256 (rq_target q) = true
